@@ -552,6 +552,12 @@ class Interp:
         out2, br2 = one_pass(merged)
         final = self.join_states(merged, out2)
         br3 = []
+        # accumulators  acc += term : keep one representative term (the sum over iterations is implicit)
+        if final is not None and out1 is not None:
+            for name in self._accumulators(s):
+                a0, a1 = entry.env.get(name), out1.env.get(name)
+                if a0 is not None and a1 is not None and a0.sym is not None and a1.sym is not None and name in final.env:
+                    final.env[name] = final.env[name].copy(sym=a1.sym, tags=final.env[name].tags | {"loopsum"})
         if elem is not None and self.config.get("nonempty_loops"):
             # iteration over a collection known to be non-empty: the zero-trip path is infeasible
             final = self.join_states(out1, out2) if (out1 is not None or out2 is not None) else None
@@ -568,6 +574,23 @@ class Interp:
         for b in br1 + br2 + br3:
             normal = self.join_states(normal, b)
         return normal
+
+    @staticmethod
+    def _accumulators(loop):
+        """names only ever modified by `name += / -= expr` inside the loop body."""
+        aug, other = set(), set()
+        for n in ast.walk(loop):
+            if isinstance(n, ast.AugAssign) and isinstance(n.target, ast.Name) and isinstance(n.op, (ast.Add, ast.Sub)):
+                aug.add(n.target.id)
+            elif isinstance(n, ast.AugAssign) and isinstance(n.target, ast.Name):
+                other.add(n.target.id)
+            elif isinstance(n, (ast.Assign, ast.For, ast.NamedExpr, ast.comprehension)):
+                tg = n.targets if isinstance(n, ast.Assign) else [n.target]
+                for t in tg:
+                    for x in ast.walk(t):
+                        if isinstance(x, ast.Name):
+                            other.add(x.id)
+        return aug - other
 
     def s_Break(self, s, st):
         if self.frames[-1].loops:
@@ -1028,6 +1051,12 @@ class Interp:
                 pdeps=base.pdeps | idx.pdeps, tags=tags, born=base.born if view else self.time)
         if view and base.kind == "arr":
             v.extra = ("view", base.extra)
+            if idx.has_const() and isinstance(idx.const, int) and not isinstance(idx.const, bool) and len(base.al) == 1 \
+                    and not (base.extra and isinstance(base.extra, tuple) and base.extra[0] == "view"):
+                (o, a), = tuple(base.al)
+                if o != "param":
+                    v.sym = Poly.atom(f"{o}.{a}[{idx.const}]")
+                    v.kind = "float"
         return v
 
     @staticmethod
@@ -1603,6 +1632,10 @@ class Interp:
             result = vconst(None)
         if fn.name not in ("<lambda>",) and role is None:
             result = result.copy(tags=result.tags | {("ret", fn.name)})
+            if (bound_self is not None and bound_self.obj is not None and result.sym is None and not result.al
+                    and result.kind in ("float", "unknown", "arr") and result.obj is None and result.items is None
+                    and result.mapping is None and not frame.is_gen and not fn.name.startswith("__")):
+                result.sym = Poly.atom(f"call<{bound_self.obj.oid}.{fn.name}>")
         self.emit(st, "leave", node, callee=fn, role=role, value=result, noreturn=False,
                   selfobj=bound_self.obj if bound_self is not None else None)
         return result
